@@ -62,6 +62,11 @@ def int_inputs(tier, seed):
 
 def list_inputs(tier, seed):
     pool = [0, 1, -1, 15, 16, -16, 31, 32, 511, 512, -512, 1023, 1024, 32 ** 4, -(32 ** 5) - 1]
+    for (i,) in int_inputs(tier, seed):          # every integer of the scalar domain as a one-element list
+        yield ([i],)
+    for k in range(1, 70):                       # +-2^k, +-2^k+-1 in a two-element list
+        for d in (-1, 0, 1):
+            yield ([2 ** k + d, -(2 ** k) + d],)
     small = pool[:7] if tier == 'quick' else pool[:9]
     for n in range(0, 4):
         for t in itertools.product(small, repeat=n):
